@@ -61,6 +61,36 @@ def fam_tail(tier, seed, n):
     return out, None
 
 
+def fam_fractional(tier, seed, n):
+    """ decks at fractional heights a few hundredths of a foot around coding steps and at the top of the range [0, 100000): the
+    pipeline is off the integer lattice there, the traces carry outcomes and messages only (judged for grammar and totality) """
+    import random
+    out = []
+    steps = [100, 1000, 9900, 10000, 11000, 50000, 99000, 100000]
+    for i in range(n):
+        rng = random.Random(f'frac:{seed}:{i}')
+        k = steps[i % len(steps)] if i < 3 * len(steps) else rng.choice(steps)
+        top = k - rng.choice([0.01, 0.03, 0.04, 0.06, 0.3, 0.5])
+        nt = rng.randint(8, 30)
+        rows = []
+        ceilos = ['a', 'b'][:rng.choice([1, 2])]
+        low = rng.random() < 0.4 and top > 4000
+        for c in ceilos:
+            for t in range(nt):
+                dt = -15.0 * (nt - 1 - t)
+                if low:
+                    rows.append([c, dt, 1000.0, 1])
+                    rows.append([c, dt, top, 2])
+                else:
+                    rows.append([c, dt, top, 1])
+        out.append({'family': 'F3e', 'name': f'frac:{seed}:{i}', 'rows': rows, 'prms': {'MAX_HITS_OKTA0': 0}, 'indomain': True, 'light': True})
+    return out, None
+
+
+def fam_lonemulti(tier, seed, n):
+    return randscenes.lone_multihit_scenes(seed, n), None
+
+
 def fam_anomaly(tier, seed, n):
     return randscenes.anomaly_scenes(seed, n), None
 
@@ -103,8 +133,8 @@ PLANS = {
         'mc': {'quick': [('msa', dict(invariants=['Inv_C01'], prmset='PrmMsaQ', ceilos=('a',), nt=3))],
                'thorough': [('msa', dict(invariants=['Inv_C01'], prmset='PrmMsa', ceilos=('a',), nt=3)),
                             ('msa2', dict(invariants=['Inv_C01'], prmset='PrmMsaQ', ceilos=('a', 'b'), nt=2, vv=True, maxper=1))]},
-        'families': {'quick': [('F2', fam_layer_tables, 700), ('F1', fam_model('PrmMsaQ'), 200), ('Rcross', fam_crossing, 80), ('Rtiny', fam_rand('tiny'), 250), ('Rmid', fam_rand('mid'), 40)],
-                     'thorough': [('F2', fam_layer_tables, 30000), ('F1', fam_model('PrmMsa'), 6000), ('F1x', fam_model('PrmMsaQ', ceilos=('a',), nt=3), None), ('Rcross', fam_crossing, 1000), ('Rtiny', fam_rand('tiny'), 3000), ('Rmid', fam_rand('mid'), 400)]},
+        'families': {'quick': [('F2', fam_layer_tables, 700), ('F1', fam_model('PrmMsaQ'), 200), ('Rcross', fam_crossing, 80), ('F3e', fam_fractional, 64), ('Rtiny', fam_rand('tiny'), 250), ('Rmid', fam_rand('mid'), 40)],
+                     'thorough': [('F2', fam_layer_tables, 30000), ('F1', fam_model('PrmMsa'), 6000), ('F1x', fam_model('PrmMsaQ', ceilos=('a',), nt=3), None), ('Rcross', fam_crossing, 1000), ('F3e', fam_fractional, 800), ('Rtiny', fam_rand('tiny'), 3000), ('Rmid', fam_rand('mid'), 400)]},
         'marks': ['N_tok1', 'N_tok2', 'N_tok3', 'N_msaeq', 'N_abovemsa', 'N_suppressed', 'N_4rep', 'N_okta0row', 'N_ncd', 'N_nsc'],
     },
     'C02': {
@@ -133,8 +163,8 @@ PLANS = {
                'thorough': [('base', dict(invariants=['Inv_C04'], prmset='PrmBase', ceilos=('a', 'b'), nt=2, maxper=1)),
                             ('code', dict(invariants=['Inv_C04'], prmset='PrmBaseQ', ceilos=('a', 'b'), nt=2, lattice='LatticeB', maxper=1)),
                             ('base3', dict(invariants=['Inv_C04'], prmset='PrmBaseQ', ceilos=('a',), nt=4, orders=('asc', 'desc')))]},
-        'families': {'quick': [('F3', fam_bands, 500), ('F3b', fam_split, 150), ('F3c', fam_boundary, 300), ('Rcross', fam_crossing, 60), ('Rtiny', fam_rand('tiny'), 300), ('Rmid', fam_rand('mid'), 60)],
-                     'thorough': [('F3', fam_bands, None), ('F3b', fam_split, 3000), ('F3c', fam_boundary, 4000), ('Rtiny', fam_rand('tiny'), 4000), ('Rmid', fam_rand('mid'), 600), ('Rbig', fam_rand('big'), 60)]},
+        'families': {'quick': [('F3', fam_bands, 500), ('F3b', fam_split, 150), ('F3c', fam_boundary, 300), ('Rlone', fam_lonemulti, 80), ('Rcross', fam_crossing, 60), ('Rtiny', fam_rand('tiny'), 300), ('Rmid', fam_rand('mid'), 60)],
+                     'thorough': [('F3', fam_bands, None), ('F3b', fam_split, 3000), ('F3c', fam_boundary, 4000), ('Rlone', fam_lonemulti, 1500), ('Rtiny', fam_rand('tiny'), 4000), ('Rmid', fam_rand('mid'), 600), ('Rbig', fam_rand('big'), 60)]},
         'marks': ['N_lookback', 'N_baseties', 'N_excl', 'N_fallback', 'N_interp', 'N_above10k', 'N_floattie', 'N_nearboundary'],
         'seed_shift': 13,
     },
